@@ -9,6 +9,10 @@
 #include <stdexcept>
 #include <string>
 #include <vector>
+#include <deque>
+#include <forward_list>
+#include <list>
+#include <set>
 #include "BaseGraph/types.h"
 
 namespace vh {
@@ -102,5 +106,18 @@ inline std::vector<std::string> splitOps(const std::string &body) {
     std::vector<std::string> r; std::stringstream ss(body); std::string op;
     while (std::getline(ss, op, ';')) { std::istringstream is(op); std::string k; if (is >> k) r.push_back(op); }
     return r;
+}
+// parse "i j l ; i j l ; ..." into triples
+struct Triple { unsigned i, j; long l; };
+inline std::vector<Triple> parseTriples(const std::string &body) {
+    std::vector<Triple> r;
+    for (auto &t : splitOps(body)) { std::istringstream is(t); Triple x{0, 0, 0}; is >> x.i >> x.j >> x.l; r.push_back(x); }
+    return r;
+}
+// run f, emit its segments, or the error code as a one-segment line
+template <class F> void emitGuarded(F f) {
+    Segs out; Z code = guard([&]() -> Z { out = f(); return 0; });
+    if (code != 0) out = Segs{Obs{code}};
+    emit("I", out);
 }
 } // namespace vh
